@@ -42,6 +42,7 @@ type callSpec struct {
 	state   string // term returning (results.., effect state): a call of another translated function with effects
 	ignore  bool   // declared to have no effect the model tracks: the statement is dropped, with a note
 	tail    string // constructor applied to the effect state for a call in tail position (the function ends with it)
+	spread  bool   // the call may pass its last argument with ... (the template sees the slice)
 }
 
 type target struct {
@@ -69,6 +70,7 @@ type target struct {
 	retfmt  string              // wrapper of returned values, e.g. "Some (%s)"
 	nilTest map[string]string   // Coq type -> nil test function (default is_nil)
 	fields  map[string]string   // field name -> accessor function for fields of non-receiver values
+	globals []string            // names defined in the imported Coq files that the renderings may mention
 }
 
 type untranslatable struct{ why string }
@@ -417,7 +419,9 @@ func (x *tr) fill(tmpl string, c *ast.CallExpr) string {
 // checkArgs: every argument (also the ones the rendering drops) must itself be inside the fragment
 func (x *tr) checkArgs(c *ast.CallExpr) {
 	if c.Ellipsis != token.NoPos {
-		x.bad(c, "call with a spread argument")
+		if cs, ok := x.t.calls[x.callKey(c)]; !ok || !cs.spread {
+			x.bad(c, "call with a spread argument")
+		}
 	}
 	mark := len(x.pending)
 	for _, a := range c.Args {
@@ -585,6 +589,10 @@ func (x *tr) expr(e ast.Expr) string {
 			}
 		}
 		return x.use(sanitize(src(z)))
+	case *ast.StarExpr:
+		if nm, ok := x.deref(z); ok {
+			return x.use(nm)
+		}
 	case *ast.UnaryExpr:
 		switch z.Op {
 		case token.NOT:
@@ -688,6 +696,25 @@ func (x *tr) expr(e ast.Expr) string {
 				if len(z.Args) == 2 {
 					return x.partial("str_repeat " + paren(x.expr(z.Args[0])) + " " + paren(x.expr(z.Args[1])))
 				}
+			case "append":
+				// append(a, b...) / append(a, x, y): the value; the translation has no aliasing to lose
+				if k := x.kindOf(z.Args[0]); strings.HasPrefix(k, "list ") && len(z.Args) >= 2 {
+					a := x.expr(z.Args[0])
+					if z.Ellipsis != token.NoPos {
+						if len(z.Args) == 2 && x.kindOf(z.Args[1]) == k {
+							return "(" + a + " ++ " + x.expr(z.Args[1]) + ")"
+						}
+					} else {
+						var els []string
+						for _, e := range z.Args[1:] {
+							if "list "+paren(x.kindOf(e)) != k && "list "+x.kindOf(e) != k {
+								x.bad(z, "append of an element of another translated type")
+							}
+							els = append(els, x.expr(e))
+						}
+						return "(" + a + " ++ [" + strings.Join(els, "; ") + "])"
+					}
+				}
 			case "strings.ToLower":
 				if len(z.Args) == 1 {
 					return "(to_lower " + x.expr(z.Args[0]) + ")"
@@ -747,8 +774,37 @@ func (x *tr) expr(e ast.Expr) string {
 	return ""
 }
 
+// deref: *p where p is a pointer parameter the target threads through as state (its pointee is the
+// binder of that name; the pointer itself is only ever passed on to declared calls)
+func (x *tr) deref(z *ast.StarExpr) (string, bool) {
+	if !x.t.strict {
+		return "", false
+	}
+	id, ok := z.X.(*ast.Ident)
+	if !ok {
+		return "", false
+	}
+	obj, _ := x.p.TypesInfo.Uses[id].(*types.Var)
+	if obj == nil || x.fscope == nil || obj.Parent() != x.fscope {
+		return "", false
+	}
+	if _, isPtr := obj.Type().Underlying().(*types.Pointer); !isPtr {
+		return "", false
+	}
+	for _, e := range x.t.effects {
+		if e == x.ident(id.Name) {
+			return e, true
+		}
+	}
+	return "", false
+}
+
 func (x *tr) lhsName(e ast.Expr) (string, bool) {
 	switch z := e.(type) {
+	case *ast.StarExpr:
+		if nm, ok := x.deref(z); ok {
+			return nm, true
+		}
 	case *ast.Ident:
 		if z.Name == "_" {
 			return "", false
@@ -897,7 +953,12 @@ func (x *tr) outerAssigned(stmts []ast.Stmt) []string {
 	// reordering statements does not change the shape of the generated state)
 	sort.SliceStable(out, func(i, j int) bool { return pos[out[i]] < pos[out[j]] })
 	if effect {
-		out = append(out, x.t.effects...)
+		for _, e := range x.t.effects {
+			if !seen[e] {
+				seen[e] = true
+				out = append(out, e)
+			}
+		}
 	}
 	return out
 }
@@ -974,7 +1035,9 @@ func (x *tr) effectCall(c *ast.CallExpr, cs callSpec, lhs []string, n ast.Node, 
 	x.checkArgs(c)
 	if se, ok := c.Fun.(*ast.SelectorExpr); ok {
 		if _, isSel := x.p.TypesInfo.Selections[se]; isSel && x.pkgVar(se.X) == "" {
-			x.expr(se.X) // the receiver must be in the fragment too
+			if id, ok := se.X.(*ast.Ident); !ok || id.Name != x.recv { // (a method of the receiver itself: the declaration says what it reads)
+				x.expr(se.X) // the receiver must be in the fragment too
+			}
 		}
 	}
 	switch {
@@ -1903,6 +1966,9 @@ func translate(t *target) (def string, ok bool, why string) {
 			declared[n] = true
 			x.bound[n]++
 		}
+	}
+	for _, g := range t.globals {
+		x.bound[g]++
 	}
 	var body string
 	if t.cond != nil {
